@@ -216,8 +216,18 @@ def release_all_threads():
     THREADS.clear()
 
 
+def _fd2_default(text):
+    os.write(2, text.encode('utf-8'))
+
+
+FD2 = _fd2_default    # runrt points this at the (virtual) process's real stderr
+
+
 def _do_writes(ws):
     for stream, text, via in ws or ():
+        if stream == 'fd2':
+            FD2(text)
+            continue
         st = sys.stdout if stream == 'o' else sys.stderr
         if via:
             st.buffer.write(text.encode('utf-8'))
